@@ -9,16 +9,16 @@ NOTE = ("Trusted: go/ssa translation (x/tools v0.29.0), the engine's SSA semanti
 
 claimed = {
  "C16": dict(text="Bounded model checking of one step of the block store (lib/chain BlockDB) from an arbitrary well-formed on-disk state: two stored blocks with arbitrary trusted / invalid flags (index and data file built in the store's own format), "
-                  "then open + index walk, one block added, optionally flushed, optionally an old block marked trusted or invalid, close and reopen, with a cache of 1 or 10 blocks and with or without data-file roll-over: "
+                  "stored raw or as snappy streams longer than the block, then open + index walk, one block added, optionally flushed, optionally one of the three blocks marked trusted or invalid (the new one still queued or written), close and reopen, with a cache of 1 or 10 blocks and with or without data-file roll-over: "
                   "every block not marked invalid is read back byte-identical by its hash (from cache, queue or disk), the index walk lists exactly the non-invalid blocks with height, size, transaction count and trusted flag, and appending overwrites none of them.",
              ref="6/C16", note=NOTE + "Under the engine the files are an in-memory map inside the harness (os / *os.File functions replaced); native replays run the same steps on real files. "
-                  "Outside: compression (snappy resolves to assembly), blocks beyond 82 bytes, more than two stored blocks, retention (files to keep / backup), longer histories, crashes (C07). "),
+                  "In the compressed variant snappy.Encode / Decode are the real code and their two assembly kernels are replaced by a one-literal encoder and a literal decoder (what the real encoder emits for these blocks). Outside: compressible blocks (snappy copy elements), gzip records, blocks beyond 82 bytes, more than two stored blocks, retention (files to keep / backup), longer histories, crashes (C07). "),
  "C19": dict(text="Bounded model checking of the embedded key-value store (lib/others/qdb) against an in-memory map with the crash point as a variable: every workload of 3 (thorough 4) operations from "
-                  "{Put, Del, Sync, Defrag(force), Close+reopen} on two keys with arbitrary two-byte values, syncing on every change or on demand, run on a file map in which every create / write / remove is a possible crash point: "
+                  "{Put, Del, Sync, Defrag(force), Close+reopen} on two keys with arbitrary two-byte values, syncing on every change or on demand, from an empty store or from one holding a key written in an earlier session, forced defragmentation at 300 % or 10 %, run on a file map in which every create / write / remove is a possible crash point: "
                   "after every operation Get and Count agree with the map; after a clean Close or a crash before the k-th file operation (k arbitrary) a reopen succeeds and every key holds its last synced value or one written later, exactly the last one after a clean Close.",
              ref="6/C19", note=NOTE + "The file system is an in-memory map inside the harness (os / filepath / ioutil functions replaced; writes atomic and durable in program order; a crash loses nothing already written: torn writes and reordering by the operating system are outside). "
                   "Counterexamples are replayed natively by running the same workload in a child process under gdb, killed at every entry to / return from an openat, write or unlinkat system call, and reopening the directory in a second child. "
-                  "Outside: values beyond 2 bytes, more than two keys, NO_CACHE / NO_BROWSE flags, volatile mode, automatic defragmentation thresholds, longer histories. "),
+                  "Outside: values beyond 2 bytes, more than two keys, NO_CACHE / NO_BROWSE flags, volatile mode, other defragmentation thresholds, longer histories. "),
  "C17": dict(text="Bounded model checking of the inductive step of the per-address balance index (client/wallet TxNotifyAdd / TxNotifyDel, NewUTXO / all_del_utxos): from every index state in which one address holds 0..3 outputs "
                   "(list or map representation, arbitrary values at or above an arbitrary minimum) one UTXO notification - a two-output transaction with arbitrary scripts and values, or a removal with an arbitrary spent mask, "
                   "also of never-indexed outputs - leaves each address record equal to the projection of the changed set (members, count, total, no record for an empty address); and the link to the UTXO database: "
